@@ -375,9 +375,9 @@ func checkC06(w *World, r *Recorder) propInfo {
 	// ---------- A4 ----------
 	ruleOptions(w, r, "C06-A4", "DecOptions")
 
-	r.Floor("C06-A1", 5)
-	r.Floor("C06-A2", 3)
-	r.Floor("C06-A3", 10)
+	r.Floor("C06-A1", 3)
+	r.Floor("C06-A2", 2)
+	r.Floor("C06-A3", 6)
 	r.Floor("C06-A4", 1)
 	return info
 }
